@@ -8,10 +8,13 @@ C28 op lines (keys, regions, versions, values are decimal numbers):
   txn p=<k> start=<n> cv=<n> ttl=<n> muts=<k>:<p|d>:<v>,…  regions=<k>:<r>,…
                              defines the transaction and starts the client (blocked at RPC 0)
   deliver | drop | lose | notleader | redeliver <i> | restart      (TwoPC.lean `Op`)
+  epoch | split | merge                                            region topology changes hitting the pending RPC
   check <cur> | resolve <k>,<k>,…                                   resolver steps
   foreign <k> <fts> <ttl> <v> | foreignabort <k> <fts> | foreigncommit <k> <fts> <fcv>
   | foreignresolve <k> <fts> <fcv> | foreigncheck <k> <fts> <cur>   requests of another transaction on one key
   get <k> <version>
+  e.reset | e.begin <i> incr <d>|setnx <v> | e.commit <i> | e.ropen <j> | e.rclose <j> | e.other
+  | e.stall | e.unstall | e.get | e.getnx      C30: clients scheduled step by step on the in-process DB
   observe                    reads every key of the transaction at its commit version; the spec
                              column is the atomicity statement of C28 (all new or none new, and
                              never a change of mind once settled)
@@ -36,7 +39,16 @@ structure St where
   sys : Option Sys := none
   seeds : List Seed := []
   decided : Option Bool := none      -- spec monitor: first settled observation (true = all new)
+  world : List (Nat × Nat) := []     -- key ↦ region id as the cluster has it now (splits / merges)
+  stale : List Nat := []             -- keys that left their region since the current run grouped them
+  splitDone : List Nat := []         -- regions already split or merged away in this case
   red : RState := RState.start 0 []
+  -- C30 scheduled embedded engine (`e.*` lines)
+  est : RState := RState.start 0 [[], [], [], []]
+  stalled : Bool := false
+  pendC : List String := []          -- results of commits issued during a stall, in order
+  blockedB : List (Nat × Cmd) := []  -- begins that wait for the stalled commits
+  readers : List Nat := []           -- open read-only transactions
 
 def splitList (s : String) (sep : String) : List String :=
   if s == "-" || s == "" then [] else s.splitOn sep
@@ -53,10 +65,15 @@ def setCfg (st : St) (kv : String) : Option St :=
       let b ← boolOfString? v; pure { st with cfg := { st.cfg with primaryCommitErrStops := b } }
     | "perc.commitNoLockRejectsRollback" => do
       let b ← boolOfString? v; pure { st with cfg := { st.cfg with perc := { st.cfg.perc with commitNoLockRejectsRollback := b } } }
+    | "prewrite.keepsOwnLock" => do
+      let b ← boolOfString? v; pure { st with cfg := { st.cfg with perc := { st.cfg.perc with prewriteKeepsOwnLock := b } } }
     | "perc.getSkipsRollback" => do
       let b ← boolOfString? v; pure { st with cfg := { st.cfg with perc := { st.cfg.perc with readSkipsRollback := b } } }
     | "perc.prewriteForeignLock" => if v == "locked" then some st else none     -- only this shape is modelled
+    | "client.prewriteSendsAll" => if v == "true" then some st else none       -- only this shape is modelled
+    | "client.commitSendsAll" => if v == "true" then some st else none         -- only this shape is modelled
     | "perc.rollbackChecksOwner" => if v == "true" then some st else none        -- only this shape is modelled
+    | "oracle.readTsWaitsUnbounded" => if v == "true" then some st else none   -- only this shape is modelled
     | "txn.trackGet" => do
       let b ← boolOfString? v; pure { st with rcfg := { st.rcfg with trackGet := b } }
     | "redis.detectConflicts" => do
@@ -101,7 +118,7 @@ def errsStr (l : List KErr) : String :=
 /-- store-side result of an RPC, as the gate in the harness classifies the response -/
 def rpcResult (c : ClientCfg) (t : Txn) (rpc : Rpc) (s : Store) : String :=
   match rpc with
-  | .prewrite ms => errsStr (prewrite t.start t.ttl ms s).2
+  | .prewrite ms => errsStr (prewrite c.perc t.start t.ttl ms s).2
   | .commit ks => let e := (commit c.perc t.start t.cv ks s).2; if e = .ok then "ok" else "err:" ++ e.str
 
 /-- spec-level committed map before the transaction: newest seed with commit ts ≤ v -/
@@ -128,7 +145,7 @@ def dedupStr (l : List String) : List String :=
 /-- C28 on one observation: every key shows the transaction's write, or every key shows what was
     committed before it (timestamps are unique: no seed shares one with the transaction).  A deleted
     key that was absent before reads the same in both outcomes. -/
-def observeSpec (st : St) (t : Txn) (obs : List (Mut × GetRes)) : String × Option Bool :=
+def observeSpec (st : St) (t : Txn) (aborted : Bool) (obs : List (Mut × GetRes)) : String × Option Bool :=
   if obs.any (fun p => p.2 = .locked) then ("*", st.decided)
   else
     let newLine := " ".intercalate (t.muts.map fun m => s!"{m.key}=" ++ optStr m.dataVal)
@@ -138,13 +155,23 @@ def observeSpec (st : St) (t : Txn) (obs : List (Mut × GetRes)) : String × Opt
     let oldLines := combos oldAlts
     let discriminating := t.muts.any (fun m => m.kind = .put)
     let allNew := obs.all (fun p => decide (p.2 = (match p.1.dataVal with | some v => GetRes.val v | none => GetRes.notFound)))
-    let now : Option Bool := if discriminating then some allNew else none
+    -- "all new" is final; "none new" is final only once a resolver has found the primary rolled
+    -- back (a client that merely gave up may retry with the same versions and succeed)
+    let now : Option Bool := if discriminating ∧ (allNew ∨ aborted) then some allNew else none
     let allowed : List String :=
       match st.decided with
       | some true => [newLine]
       | some false => oldLines
       | none => newLine :: oldLines
     ("|".intercalate (dedupStr allowed), match st.decided with | some d => some d | none => now)
+
+def rpcKeys : Rpc → List Nat
+  | .prewrite ms => ms.map (·.key)
+  | .commit ks => ks
+
+/-- the pending RPC names a key that no longer lives in the region the run grouped it under:
+the store refuses it (EpochNotMatch) whatever epoch the client sends -/
+def isStale (st : St) (rpc : Rpc) : Bool := (rpcKeys rpc).any (fun k => st.stale.contains k)
 
 def statusOf (y : Sys) : String := "st=" ++ y.status.str
 
@@ -167,7 +194,7 @@ def step' (st : St) (toks : List String) : St × String :=
   | ["seedput", k, s, c, v] =>
     match natOf? k, natOf? s, natOf? c, natOf? v with
     | some k, some s, some c, some v =>
-      let r := prewrite s 0 [⟨k, .put, v⟩] st.store
+      let r := prewrite st.cfg.perc s 0 [⟨k, .put, v⟩] st.store
       let r2 := commit st.cfg.perc s c [k] r.1
       -- the spec-level map counts a seed only if it was accepted (seed lines are set-up)
       let okSeed := r.2.isEmpty && decide (r2.2 = .ok)
@@ -178,7 +205,7 @@ def step' (st : St) (toks : List String) : St × String :=
   | ["seedlock", k, s, ttl] =>
     match natOf? k, natOf? s, natOf? ttl with
     | some k, some s, some ttl =>
-      let r := prewrite s ttl [⟨k, .put, 0⟩] st.store
+      let r := prewrite st.cfg.perc s ttl [⟨k, .put, 0⟩] st.store
       ({ st with store := r.1 }, errsStr r.2 ++ "\t*")
     | _, _, _ => (st, "bad-op")
   | "txn" :: kvs =>
@@ -195,41 +222,89 @@ def step' (st : St) (toks : List String) : St × String :=
              preOrder := others, comOrder := others }
     match r with
     | some t =>
-      let y := Sys.init st.store
+      let y := Sys.init st.cfg t st.store
       let y := if (program st.cfg t).isEmpty then { y with status := .done } else y
-      ({ st with txn := some t, sys := some y, decided := none }, "ok " ++ statusOf y ++ "\t*")
+      ({ st with txn := some t, sys := some y, decided := none,
+                 world := t.muts.map (fun m => (m.key, t.region m.key)), stale := [], splitDone := [] },
+        "ok " ++ statusOf y ++ "\t*")
     | none => (st, "bad-op")
   | ["deliver"] => withSys st fun t y =>
     if y.status ≠ .running then (st, "idle " ++ statusOf y ++ "\t*") else
-    match (program st.cfg t)[y.pc]? with
+    match (program st.cfg y.cur)[y.pc]? with
     | none => stepOp st t y .deliver "none"
-    | some rpc => stepOp st t y .deliver (rpcStr rpc ++ " " ++ rpcResult st.cfg t rpc y.store)
+    | some rpc =>
+      if isStale st rpc then stepOp st t y .notLeader (rpcStr rpc ++ " regionerr")
+      else stepOp st t y .deliver (rpcStr rpc ++ " " ++ rpcResult st.cfg t rpc y.store)
   | ["lose"] => withSys st fun t y =>
     if y.status ≠ .running then (st, "idle " ++ statusOf y ++ "\t*") else
-    match (program st.cfg t)[y.pc]? with
+    match (program st.cfg y.cur)[y.pc]? with
     | none => stepOp st t y .lose "none"
-    | some rpc => stepOp st t y .lose (rpcStr rpc ++ " " ++ rpcResult st.cfg t rpc y.store)
+    | some rpc =>
+      if isStale st rpc then stepOp st t y .notLeader (rpcStr rpc ++ " regionerr")
+      else stepOp st t y .lose (rpcStr rpc ++ " " ++ rpcResult st.cfg t rpc y.store)
   | ["drop"] => withSys st fun t y =>
     if y.status ≠ .running then (st, "idle " ++ statusOf y ++ "\t*") else
-    match (program st.cfg t)[y.pc]? with
+    match (program st.cfg y.cur)[y.pc]? with
     | none => stepOp st t y .drop "none"
     | some rpc => stepOp st t y .drop (rpcStr rpc ++ " dropped")
   | ["notleader"] => withSys st fun t y =>
     if y.status ≠ .running then (st, "idle " ++ statusOf y ++ "\t*") else
-    match (program st.cfg t)[y.pc]? with
+    match (program st.cfg y.cur)[y.pc]? with
     | none => stepOp st t y .notLeader "none"
     | some rpc => stepOp st t y .notLeader (rpcStr rpc ++ " notleader")
+  -- region topology changes, noticed by the client through the reply to its pending RPC
+  | ["epoch"] => withSys st fun t y =>
+    -- the region's epoch was bumped (conf change, split elsewhere): EpochNotMatch, same range
+    if y.status ≠ .running then (st, "idle " ++ statusOf y ++ "\t*") else
+    match (program st.cfg y.cur)[y.pc]? with
+    | none => stepOp st t y .notLeader "none"
+    | some rpc => stepOp st t y .notLeader (rpcStr rpc ++ " epoch")
+  | ["split"] => withSys st fun t y =>
+    -- the region of the pending RPC is split at the RPC's smallest key: that key and every
+    -- greater key of the region now live in a new sibling region
+    if y.status ≠ .running then (st, "idle " ++ statusOf y ++ "\t*") else
+    match (program st.cfg y.cur)[y.pc]? with
+    | none => stepOp st t y .notLeader "none"
+    | some rpc =>
+      let ks := rpcKeys rpc
+      let rg := match ks with | k :: _ => y.cur.region k | [] => 0
+      if ks.isEmpty ∨ rg = 0 ∨ rg > 3 ∨ st.splitDone.contains rg ∨ isStale st rpc then
+        stepOp st t y .notLeader (rpcStr rpc ++ " epoch")
+      else
+        let kmin := ks.foldl min (ks.headD 0)
+        let moved := (st.world.filter (fun p => p.2 = rg ∧ kmin ≤ p.1)).map (·.1)
+        let world' := st.world.map (fun p => if moved.contains p.1 then (p.1, 10 + rg) else p)
+        let st' := { st with world := world', stale := st.stale ++ moved, splitDone := rg :: st.splitDone }
+        stepOp st' t y .notLeader (rpcStr rpc ++ " split")
+  | ["merge"] => withSys st fun t y =>
+    -- the region of the pending RPC is merged into its neighbour and disappears
+    if y.status ≠ .running then (st, "idle " ++ statusOf y ++ "\t*") else
+    match (program st.cfg y.cur)[y.pc]? with
+    | none => stepOp st t y .notLeader "none"
+    | some rpc =>
+      let ks := rpcKeys rpc
+      let rg := match ks with | k :: _ => y.cur.region k | [] => 0
+      let tgt := if rg = 1 then 2 else rg - 1
+      if ks.isEmpty ∨ rg = 0 ∨ rg > 3 ∨ st.splitDone.contains rg ∨ st.splitDone.contains tgt ∨ isStale st rpc then
+        stepOp st t y .notLeader (rpcStr rpc ++ " epoch")
+      else
+        let world' := st.world.map (fun p => if p.2 = rg then (p.1, tgt) else p)
+        let st' := { st with world := world', splitDone := rg :: st.splitDone }
+        stepOp st' t y .drop (rpcStr rpc ++ " merge")
   | ["redeliver", i] => withSys st fun t y =>
     match natOf? i with
     | some i =>
-      if i ≤ y.pcMax then
-        match (program st.cfg t)[i]? with
-        | none => stepOp st t y (.redeliver i) "none"
-        | some rpc => stepOp st t y (.redeliver i) (rpcStr rpc ++ " " ++ rpcResult st.cfg t rpc y.store)
-      else stepOp st t y (.redeliver i) "none"
+      match y.issued[i]? with
+      | none => stepOp st t y (.redeliver i) "none"
+      | some rpc => stepOp st t y (.redeliver i) (rpcStr rpc ++ " " ++ rpcResult st.cfg t rpc y.store)
     | none => (st, "bad-op")
   | ["restart"] => withSys st fun t y =>
-    if y.status = .running then (st, "busy " ++ statusOf y ++ "\t*") else stepOp st t y .restart "restarted"
+    if y.status = .running then (st, "busy " ++ statusOf y ++ "\t*") else
+      -- the client groups the keys by its refreshed routing cache
+      let reg : Nat → Nat := fun k => ((st.world.find? (fun p => p.1 = k)).map (·.2)).getD 0
+      let others := firstSeen ((t.muts.map (fun m => reg m.key)).filter (fun r => r ≠ reg t.primary))
+      let g : Grouping := ⟨st.world, others, others⟩
+      stepOp { st with stale := [] } t y (.restart g) "restarted"
   | ["check", cur] => withSys st fun t y =>
     match natOf? cur with
     | some cur =>
@@ -256,7 +331,7 @@ def step' (st : St) (toks : List String) : St × String :=
   | ["foreign", k, fts, ttl, v] => withSys st fun t y =>
     match natOf? k, natOf? fts, natOf? ttl, natOf? v with
     | some k, some fts, some ttl, some v =>
-      let e := (prewriteKey fts ttl ⟨k, .put, v⟩ (y.store k)).2
+      let e := (prewriteKey st.cfg.perc fts ttl ⟨k, .put, v⟩ (y.store k)).2
       let y' := step st.cfg t y (.other (.prewrite ⟨k, .put, v⟩ fts ttl))
       ({ st with sys := some y' }, (if e = .ok then "ok" else "err:" ++ e.str) ++ "\t*")
     | _, _, _, _ => (st, "bad-op")
@@ -292,8 +367,67 @@ def step' (st : St) (toks : List String) : St × String :=
   | ["observe"] => withSys st fun t y =>
     let obs := t.muts.map fun m => (m, get st.cfg.perc (y.store m.key) t.cv)
     let line := " ".intercalate (obs.map fun p => s!"{p.1.key}=" ++ p.2.str)
-    let (spec, dec) := observeSpec st t obs
+    let (spec, dec) := observeSpec st t (y.learned == some .rolledBack) obs
     ({ st with decided := dec }, line ++ "\t" ++ spec)
+  -- ---------------------------------------------------------------- C30, scheduled (in-process DB)
+  | ["e.reset"] =>
+    ({ st with est := RState.start 0 [[], [], [], []], stalled := false, pendC := [], blockedB := [], readers := [] }, "ok\t*")
+  | "e.begin" :: i :: kind :: arg :: [] =>
+    match natOf? i, (if kind == "incr" then (parseInt? arg).map Cmd.incr
+                     else if kind == "setnx" then arg.toNat?.map Cmd.setnx else none) with
+    | some i, some cmd =>
+      match st.est.clients[i]? with
+      | some cl =>
+        if cl.phase ≠ .idle ∨ st.blockedB.any (fun p => p.1 = i) then (st, "bad-op")
+        else if st.stalled ∧ !st.pendC.isEmpty then
+          -- a new transaction waits until every commit that owns a timestamp is applied
+          ({ st with blockedB := st.blockedB ++ [(i, cmd)] }, "blocked\t*")
+        else
+          let s0 := { st.est with clients := st.est.clients.set i ⟨[cmd], .idle⟩ }
+          ({ st with est := rstep st.rcfg .embedded s0 i }, "ok\t*")
+      | none => (st, "bad-op")
+    | _, _ => (st, "bad-op")
+  | ["e.commit", i] =>
+    match natOf? i with
+    | some i =>
+      match st.est.clients[i]? with
+      | some cl =>
+        match cl.phase with
+        | .idle => (st, "bad-op")
+        | .inTxn cmd _ _ sn =>
+          let s1 := rstep st.rcfg .embedded st.est i
+          let res : String := match cmd with
+            | .incr _ => if s1.okSum = st.est.okSum ∧ s1.ctrTs = st.est.ctrTs then "conflict" else s!"int:{s1.ctr}"
+            | .setnx _ => if sn.isSome then "nil" else if s1.nxOk = st.est.nxOk then "conflict" else "OK"
+          let isWrite := res != "conflict" && res != "nil"
+          -- spec: at most one SET NX ever replies OK
+          let spec := match cmd with
+            | .setnx _ => if st.est.nxOk ≥ 1 then "nil|conflict|pending" else "*"
+            | _ => "*"
+          if st.stalled ∧ isWrite then
+            ({ st with est := s1, pendC := st.pendC ++ [s!"c{i}={res}"] }, "pending\t" ++ spec)
+          else ({ st with est := s1 }, res ++ "\t" ++ spec)
+      | none => (st, "bad-op")
+    | none => (st, "bad-op")
+  | ["e.ropen", j] =>
+    match natOf? j with
+    | some j => if st.stalled ∨ st.readers.contains j then (st, "bad-op") else ({ st with readers := j :: st.readers }, "ok\t*")
+    | none => (st, "bad-op")
+  | ["e.rclose", j] =>
+    match natOf? j with
+    | some j => ({ st with readers := st.readers.filter (· ≠ j) }, "ok\t*")
+    | none => (st, "bad-op")
+  | ["e.other"] => (st, if st.stalled then "bad-op" else "ok\t*")
+  | ["e.stall"] => ({ st with stalled := true }, "ok\t*")
+  | ["e.unstall"] =>
+    -- the stalled commits are applied in timestamp order, then the waiting transactions begin
+    let est' := st.blockedB.foldl (fun s p =>
+        rstep st.rcfg .embedded { s with clients := s.clients.set p.1 ⟨[p.2], .idle⟩ } p.1) st.est
+    let out := " ".intercalate (st.pendC ++ st.blockedB.map (fun p => s!"b{p.1}=ok"))
+    ({ st with est := est', stalled := false, pendC := [], blockedB := [] }, (if out == "" then "-" else out) ++ "\t*")
+  | ["e.get"] => if st.stalled then (st, "bad-op") else (st, s!"int:{st.est.ctr}\tint:{st.est.init0 + st.est.okSum}")
+  | ["e.getnx"] =>
+    if st.stalled then (st, "bad-op") else (st, (match st.est.nx with | some v => s!"bulk:{v}" | none => "nil") ++ "\t*")
   -- ---------------------------------------------------------------- C30
   | _ =>
     match redisStep st.rcfg st.red toks with
